@@ -541,6 +541,8 @@ func runC03(cases string, res *Result) {
 	c03MapsThatChange(res)
 	c03IdenticallyBuiltEngines(res)
 	c03AttributeHistory(res)
+	c03SpellingsOfOneWord(res)
+	c03RenderedAgainUnderSettings(res)
 	for _, cl := range []string{"hash-duplicate-key", "key-string-collision", "toplevel-address", "merge-filter-key-collision"} {
 		bad := 0
 		for _, f := range res.Findings {
